@@ -353,7 +353,12 @@ def sum_primitive(ctx):
               "%d rank arms of add_inplace add every element of the other tensor" % len(sub.obligations))
 
 
+RULES["R04.3"] += " | entries-stay-in-place (who-may-permute): over every function of the property's modules, no Vec/slice operation that moves entries to other positions (reverse, swap, rotate, sort .., mem::swap of two entries) outside the table of sites confirmed on the pinned tree (common.PERMUTING_SITES)"
+
+
 def run(ctx):
+    from .common import no_permuting_ops
+    ctx.guard("R04.3", "entries-stay-in-place", no_permuting_ops, ctx, "R04.3", "network", {"src/network.rs"}, 20)
     ctx.guard("R04.6", "step-plumbing", r6, ctx)
     L = ctx.guard("R04.1", "learn-structure", parts, ctx)
     if not L:
